@@ -12,6 +12,7 @@ CONSTANTS
   MaxInbound = 1
   MaxTime = 660
   Faults = FALSE
+  MaxRestart = 1
   UseFourth = FALSE
   SetIdxs = {0, 1, 2, 3}
   TimeSteps = {}
